@@ -263,7 +263,11 @@ func otherMsg(r *rand.Rand, narrow bool) []byte {
 	if narrow {
 		n = r.Intn(2)
 	}
-	switch r.Intn(10) {
+	switch r.Intn(12) {
+	case 10: // meta events that NAME a channel or a port but are no channel messages
+		return smf.MetaChannel(uint8(r.Intn(16)))
+	case 11:
+		return smf.MetaPort(uint8(r.Intn(4)))
 	case 0, 1, 2: // sysex
 		b := []byte{0xF0}
 		for i := 0; i < n; i++ {
